@@ -48,7 +48,7 @@ func allScenarios() []*Scenario {
 	add("C13", "mset-mset-opposite", true, nil, th(c("MSET", "@k0", "a", "@k2", "a")), th(c("MSET", "@k2", "b", "@k0", "b")), th(c("GET", "@k2"), c("GET", "@k0")))
 	add("C13", "mset-mset-colliding", true, nil, th(c("MSET", "@k0", "a", "@k1", "a")), th(c("MSET", "@k1", "b", "@k0", "b")), th(c("GET", "@k1"), c("GET", "@k0")))
 	add("C13", "mset-repeated-key", true, nil, th(c("MSET", "@k0", "a", "@k0", "b", "@k2", "c")), th(c("SET", "@k0", "z")), th(c("GET", "@k0")))
-	add("C13", "rename-rename-opposite", true, th(c("SET", "@k0", "a"), c("SET", "@k2", "b")), th(c("RENAME", "@k0", "@k2")), th(c("RENAME", "@k2", "@k0")), th(c("EXISTS", "@k0", "@k2")))
+	add("C13", "rename-rename-opposite", true, th(c("SET", "@k0", "a"), c("SET", "@k2", "b")), th(c("RENAME", "@k0", "@k2")), th(c("RENAME", "@k2", "@k0")), th(c("EXISTS", "@k0"), c("EXISTS", "@k2")))
 	add("C13", "rename-vs-set", true, th(c("SET", "@k0", "a")), th(c("RENAME", "@k0", "@k2")), th(c("SET", "@k0", "z")), th(c("GET", "@k2"), c("GET", "@k0")))
 	add("C13", "rename-vs-exists", true, th(c("SET", "@k0", "a")), th(c("RENAME", "@k0", "@k1")), th(c("EXISTS", "@k1"), c("EXISTS", "@k0")))
 	add("C13", "lmove-lmove-opposite", true, th(c("RPUSH", "@k0", "a"), c("RPUSH", "@k2", "b")), th(c("LMOVE", "@k0", "@k2", "LEFT", "RIGHT")), th(c("LMOVE", "@k2", "@k0", "LEFT", "RIGHT")), th(c("LLEN", "@k2"), c("LLEN", "@k0"))).Conserve = []string{"@k0", "@k2"}
@@ -62,7 +62,7 @@ func allScenarios() []*Scenario {
 	add("C13", "exists-multi-vs-rename", false, th(c("SET", "@k0", "a")), th(c("EXISTS", "@k0", "@k2")), th(c("RENAME", "@k0", "@k2")))
 	add("C13", "sunion-vs-smove", false, th(c("SADD", "@k0", "a"), c("SADD", "@k2", "b")), th(c("SUNION", "@k0", "@k2"), c("SINTER", "@k2", "@k0"), c("SDIFF", "@k0", "@k2")), th(c("SMOVE", "@k0", "@k2", "a")), th(c("SMOVE", "@k2", "@k0", "b")))
 	add("C13", "mget-vs-mset", false, nil, th(c("MGET", "@k0", "@k2")), th(c("MSET", "@k2", "x", "@k0", "y")), th(c("MGET", "@k2", "@k0")))
-	sc := add("C13", "blpop-vs-lmove", false, th(c("RPUSH", "@k2", "a")), th(c("BLPOP", "@k0", "@k2", "1")), th(c("LMOVE", "@k2", "@k0", "LEFT", "RIGHT")))
+	sc := add("C13", "blpop-vs-lmove", false, th(c("RPUSH", "@k2", "a")), th(c("BLPOP", "@k0", "@k2", "1")), th(c("@sleep", "100"), c("LMOVE", "@k2", "@k0", "LEFT", "RIGHT")))
 	sc.Timed = true
 	sc.Conserve = []string{"@k0", "@k2"}
 	sc = add("C13", "blpop-blpop-one-push", false, nil, th(c("BLPOP", "@k0", "1")), th(c("BLPOP", "@k0", "1")), th(c("@sleep", "300"), c("RPUSH", "@k0", "a")))
